@@ -42,6 +42,11 @@ def _reduce_vs_cinit(col, rule="C12.R1"):
             col.fail("C12.R2", f"{q}#resolves", c.module.loc(c.node),
                      "a concrete class resolves __reduce__ to a definition returning (type(self), (fields...))", "abstract / none")
             continue
+        # pickling a reference never refuses: references without a manager (items / attributes of an expression node) are ordinary
+        raises = [n for n in A.walk(sx.cx.fn) if isinstance(n, ast.Raise)]
+        col.add("C12.R2", f"{q}#never-refuses", not raises, sx.loc(raises[0]) if raises else sx.loc(sx.fn),
+                "__reduce__ returns the reconstruction for every instance (it raises for none)", A.src(raises[0])[:80] if raises else "",
+                positive=bool(raises))
         cin = rm.cinits(c.name)
         if not cin:
             raise AnalysisError(f"{c.name}: no __cinit__")
